@@ -284,17 +284,20 @@ def live (f : VField) : Bool := !f.anonymous && f.exported && !(fieldJSONInfo f.
 
 def jsonNameOf (f : VField) : String := (fieldJSONInfo f.goName f.tag).name
 
-/-- within the whole tree of a struct (`all` = every field, embedded ones and those of embedded structs included):
-    two different fields of one Go name are both live, sit at different depths and have the same JSON name; two live
-    fields of one JSON name have the same Go name.  So "the JSON name of a field is determined by its Go name" and
-    vice versa, no name is ambiguous at its depth, and Go's selector shadowing (reflect.VisibleFields) coincides with
-    encoding/json's dominance. -/
-def namesOk (all : List VField) : Bool :=
-  all.all fun a => all.all fun b =>
-    a.index == b.index ||
-      ((a.goName != b.goName ||
-          (live a && live b && a.index.length != b.index.length && jsonNameOf a == jsonNameOf b)) &&
-       (!(live a && live b && jsonNameOf a == jsonNameOf b) || a.goName == b.goName))
+/-- two different fields of one struct tree: if they have one Go name they are both live, sit at different depths
+    and have the same JSON name; if they are live and have one JSON name they have the same Go name -/
+def pairOk (a b : VField) : Bool :=
+  (a.goName != b.goName ||
+      (live a && live b && a.index.length != b.index.length && jsonNameOf a == jsonNameOf b)) &&
+  (!(live a && live b && jsonNameOf a == jsonNameOf b) || a.goName == b.goName)
+
+/-- `pairOk` for every two fields of the whole tree of a struct (`all` = every field, embedded ones and those of
+    embedded structs included).  So "the JSON name of a field is determined by its Go name" and vice versa, no name
+    is ambiguous at its depth, and Go's selector shadowing (reflect.VisibleFields) coincides with encoding/json's
+    dominance. -/
+def namesOk : List VField → Bool
+  | [] => true
+  | a :: rest => rest.all (pairOk a) && namesOk rest
 
 mutual
   /-- EncJson.InDomain plus embedded fields: untagged, exported, of a declared struct type by value or by pointer -/
